@@ -9,8 +9,9 @@
 (* Offered solution (input of a call):                                     *)
 (*   [id, size, res, epos, fit]   res \in {"ok","exc","to","none"}         *)
 (*   fit[g] = fitness class of the solution for goal g:                    *)
-(*     4 fitness 0.0 (covers g)       3 fitness > 0 so small that          *)
-(*     2 near, 1 far, 0 (h = 0.0)       1.0 - normalise(f) == 1.0          *)
+(*     HOne+1  fitness 0.0 (covers g, h = 1.0)                             *)
+(*     HOne    fitness > 0 so small that h = 1.0 - normalise(f) == 1.0     *)
+(*     k < HOne  not covered, h has rank k among the h values (0: h = 0.0) *)
 (*   epos = index of the first raised exception (res = "exc")              *)
 (* Archived solution (observed): [id, size, res, covers \subseteq Goal]    *)
 (* View:                                                                   *)
@@ -29,8 +30,8 @@ Max2(a, b) == IF a >= b THEN a ELSE b
 
 Err(s) == s.res \in {"exc", "to"}      \* last execution timed out or raised
 
-FitCovers(fit) == {g \in DOMAIN fit : fit[g] = 4}
-HOf(f) == IF f >= 3 THEN HOne ELSE f   \* class 3: h rounds to 1.0 although fitness > 0
+FitCovers(fit) == {g \in DOMAIN fit : fit[g] = HOne + 1}
+HOf(f) == IF f >= HOne THEN HOne ELSE f
 
 (* what the CoverageArchive stores for an offered solution: the object itself *)
 AsCov(s) == [id |-> s.id, size |-> s.size, res |-> s.res, covers |-> FitCovers(s.fit)]
